@@ -432,7 +432,14 @@ pub fn generate(seed: u64, run: u64, _tier: Tier, focus: &str) -> Generated {
     let n_lps = rc.range(1, 3) as u8;
     let n_positions = rc.range(2, 8) as u8;
     let settle_before_ops = rc.chance(3, 4);
-    let enumerate_swap_faults = focus == "C04" || rc.chance(1, 10);
+    // 70 % of the runs use the op mix of the focus property, the rest the mix of another property (so that every
+    // oracle also sees the histories the other mixes produce)
+    let mix: &str = if rc.chance(7, 10) {
+        focus
+    } else {
+        *rc.pick(&["C02", "C03", "C04", "C05", "C06", "default"])
+    };
+    let enumerate_swap_faults = focus == "C04" || mix == "C04" || rc.chance(1, 10);
 
     let cfg = Cfg {
         focus: focus.to_string(),
@@ -454,7 +461,7 @@ pub fn generate(seed: u64, run: u64, _tier: Tier, focus: &str) -> Generated {
     } else {
         rp.range(60, 300)
     } as usize;
-    let w = weights_for(focus);
+    let w = weights_for(mix);
     let fault_rate = if faults_enabled { rf.range(5, 25) } else { 0 }; // percent of ops preceded by a Fault step
     let regress_run = rc.chance(1, 40);
     let mut steps: Vec<Step> = Vec::with_capacity(len + 2);
@@ -462,10 +469,12 @@ pub fn generate(seed: u64, run: u64, _tier: Tier, focus: &str) -> Generated {
     let amount_usd = |rng: &mut Rng, scale_dollars: u128| -> u128 {
         // log-uniform fraction of the scale: 10^-8 .. 2
         let s = usd(scale_dollars);
-        match rng.below(10) {
+        match rng.below(30) {
             0 => s.saturating_mul(2),
             1 => s,
-            2 => s / 2,
+            2 | 3 => s / 2,
+            4..=6 => s / 4,
+            7..=9 => s / 10,
             _ => {
                 let e = rng.range(1, 8) as u32;
                 let m = rng.range(1, 99) as u128;
